@@ -235,3 +235,6 @@ func (w *World) UngateDLQTemplate() {
 	w.dlqCfg.Gated = false
 	w.mu.Unlock()
 }
+
+// Logger returns a no-op logger for services built directly by drivers.
+func (w *World) Logger() log.CtxLogger { return log.Nop() }
